@@ -84,25 +84,32 @@ func runC08(_ *testing.T, c c08Case) kit.Outcome {
 		pre, post int
 		base      int64
 	}
+	// One instance lives through the prefix; it is then copied, state for state (clone_test.go), and the two copies
+	// get the final sample with the lower and the higher RTT. No random source has to be reproducible for that.
 	probed := false
+	b := buildLimit(c.Cfg, nil)
+	var prevBase int64 // the baseline in force before the most recent change of the baseline
+	for _, s := range c.Prefix {
+		had, _ := b.noLoad()
+		b.Outer.OnSample(s.Start, s.RTT, s.inflight(b.Outer.EstimatedLimit()), s.Drop)
+		now, _ := b.noLoad()
+		if now != had {
+			prevBase = had
+		}
+		if c.AfterProbe > 0 && c.Cfg.Algo == "gradient" && had != 0 && now == 0 {
+			b.Outer.OnSample(0, c.AfterProbe, b.Outer.EstimatedLimit(), false)
+			probed = true
+			break
+		}
+		if c.AfterProbe > 0 && c.Cfg.Algo == "vegas" && had != 0 && now < had {
+			break // right after the baseline dropped (through a faster sample, or through a probe that landed on one)
+		}
+	}
+	twin := deepClone(b.Inner)
 	run := func(high bool) res {
-		b := buildLimit(c.Cfg, nil)
-		var prevBase int64 // the baseline in force before the most recent change of the baseline
-		for _, s := range c.Prefix {
-			had, _ := b.noLoad()
-			b.Outer.OnSample(s.Start, s.RTT, s.inflight(b.Outer.EstimatedLimit()), s.Drop)
-			now, _ := b.noLoad()
-			if now != had {
-				prevBase = had
-			}
-			if c.AfterProbe > 0 && c.Cfg.Algo == "gradient" && had != 0 && now == 0 {
-				b.Outer.OnSample(0, c.AfterProbe, b.Outer.EstimatedLimit(), false)
-				probed = true
-				break
-			}
-			if c.AfterProbe > 0 && c.Cfg.Algo == "vegas" && had != 0 && now < had {
-				break // right after the baseline dropped (through a faster sample, or through a probe that landed on one)
-			}
+		b := b
+		if high {
+			b = built{Outer: twin, Inner: twin}
 		}
 		var r res
 		r.pre = b.Outer.EstimatedLimit()
